@@ -35,6 +35,8 @@ pub enum EditKind {
     Control,
     /// removes one generated file from the output directory
     Delete,
+    /// changes nothing; the run after the *next* edit is a forced one
+    ForceNext,
 }
 
 pub struct EditClass {
@@ -73,10 +75,16 @@ pub const EDITS: &[EditClass] = &[
     ec("private_field_type", EditKind::Source, "non-pub field User.token: u64 <-> Option<String>"),
     ec("first_emit_payload", EditKind::Source, "first of two emissions of \"status\": payload \"starting\" (String) <-> true (bool); the second emission (in report) stays 100"),
     ec("swap_emits", EditKind::Source, "swap the order of the two emit statements in save_user (listener order in events.ts)"),
+    ec("payload_only_field_type", EditKind::Source, "Audit.actor: String <-> u32, where Audit is reachable only as the payload of \"audit\" (emitted in report)"),
+    ec("payload_nested_rename", EditKind::Source, "toggle #[serde(rename = \"errorCode\")] on AuditDetail.code, a type reachable only through the payload-only struct Audit"),
+    ec("visualize_deps", EditKind::Config, "--visualize-deps / visualizeDeps off <-> on (dependency-graph.txt/.dot are then part of what a generation writes: they name the line of every command, so moving code matters)"),
+    ec("unused_type", EditKind::Control, "add/remove an unreferenced serde struct at the end of models.rs (no binding changes; the visualisation counts type definitions)"),
+    ec("no_events", EditKind::Source, "remove / restore every emit call at once (without events no events.ts is generated, and a cache record written then knows no events)"),
     ec("delete_types", EditKind::Delete, "remove types.ts from the output directory"),
     ec("delete_commands", EditKind::Delete, "remove commands.ts from the output directory"),
     ec("delete_events", EditKind::Delete, "remove events.ts from the output directory"),
     ec("delete_index", EditKind::Delete, "remove index.ts from the output directory"),
+    ec("force_next", EditKind::ForceNext, "no edit; the run that follows the NEXT edit is forced (--force / force: true), so that a forced run sits inside the history"),
 ];
 
 pub const E_ADD_COMMAND: usize = 0;
@@ -103,6 +111,11 @@ pub const E_HELPER_FN: usize = 20;
 pub const E_PRIVATE_FIELD_TYPE: usize = 21;
 pub const E_FIRST_EMIT_PAYLOAD: usize = 22;
 pub const E_SWAP_EMITS: usize = 23;
+pub const E_PAYLOAD_ONLY_FIELD_TYPE: usize = 24;
+pub const E_PAYLOAD_NESTED_RENAME: usize = 25;
+pub const E_VISUALIZE: usize = 26;
+pub const E_UNUSED_TYPE: usize = 27;
+pub const E_NO_EVENTS: usize = 28;
 
 pub fn edit_index(name: &str) -> Option<usize> {
     EDITS.iter().position(|e| e.name == name)
@@ -191,7 +204,7 @@ pub fn render_sources(m: &Model) -> Vec<(String, String)> {
     }
     lib.push_str("    Ok(())\n}\n\n");
     lib.push_str(&format!("#[tauri::command]\npub fn watch(on_progress: Channel<Progress>, {}kind: Kind) {{}}\n", if m.has(E_CHANNEL) { "on_log: Channel<String>, " } else { "" }));
-    lib.push_str("\n#[tauri::command]\npub fn report(app: AppHandle) {\n    app.emit(\"status\", 100).unwrap();\n}\n");
+    lib.push_str("\n#[tauri::command]\npub fn report(app: AppHandle) {\n    app.emit(\"status\", 100).unwrap();\n    app.emit(\"audit\", Audit { actor: Default::default(), detail: AuditDetail { code: 1 } }).unwrap();\n}\n");
     if m.has(E_ADD_COMMAND) {
         lib.push_str("\n#[tauri::command]\npub fn ping(count: u32) -> u32 {\n    count\n}\n");
     }
@@ -199,6 +212,9 @@ pub fn render_sources(m: &Model) -> Vec<(String, String)> {
         lib.push_str("\nfn helper_total(values: &[u32]) -> u32 {\n    values.iter().sum()\n}\n");
     }
 
+    if m.has(E_NO_EVENTS) {
+        lib = lib.lines().filter(|l| !l.contains(".emit(")).collect::<Vec<_>>().join("\n") + "\n";
+    }
     let mut md = String::new();
     md.push_str("use serde::{Deserialize, Serialize};\nuse time_types::Timestamp;\nuse validator::Validate;\n\n");
     md.push_str("#[derive(Debug, Clone, Serialize, Deserialize, Validate)]\n");
@@ -230,6 +246,12 @@ pub fn render_sources(m: &Model) -> Vec<(String, String)> {
         md.push_str("    Moderator,\n");
     }
     md.push_str("}\n\n#[derive(Debug, Clone, Serialize, Deserialize)]\npub struct Progress {\n    pub done: u32,\n    pub total: u32,\n}\n");
+    // reachable only as an event payload (no command mentions them)
+    md.push_str(&format!("\n#[derive(Debug, Clone, Default, Serialize, Deserialize)]\npub struct Audit {{\n    pub actor: {},\n    pub detail: AuditDetail,\n}}\n", if m.has(E_PAYLOAD_ONLY_FIELD_TYPE) { "u32" } else { "String" }));
+    md.push_str(&format!("\n#[derive(Debug, Clone, Default, Serialize, Deserialize)]\npub struct AuditDetail {{\n{}    pub code: u32,\n}}\n", if m.has(E_PAYLOAD_NESTED_RENAME) { "    #[serde(rename = \"errorCode\")]\n" } else { "" }));
+    if m.has(E_UNUSED_TYPE) {
+        md.push_str("\n#[derive(Debug, Clone, Serialize, Deserialize)]\npub struct NeverReferenced {\n    pub id: u8,\n}\n");
+    }
     must_parse("src/lib.rs", &lib);
     must_parse("src/models.rs", &md);
     vec![("src/lib.rs".to_string(), lib), ("src/models.rs".to_string(), md)]
@@ -280,6 +302,9 @@ fn standalone_config_json(m: &Model, project_path: &str, output_path: &str, forc
     if let Some(f) = force {
         o.insert("force".into(), json!(f));
     }
+    if m.has(E_VISUALIZE) {
+        o.insert("visualize_deps".into(), json!(true));
+    }
     serde_json::to_string_pretty(&Value::Object(o)).unwrap()
 }
 
@@ -318,6 +343,9 @@ pub fn materialise(root: &Path, path: RunPath, m: &Model, force: bool) -> Site {
             if force {
                 args.push("--force".into());
             }
+            if m.has(E_VISUALIZE) && !args.iter().any(|a| a == "-c") {
+                args.push("--visualize-deps".into());
+            }
             Site { path, cwd: ws.clone(), out_dir: ws.join("out"), args, config_files }
         }
         RunPath::Buildrs => {
@@ -345,6 +373,9 @@ pub fn materialise(root: &Path, path: RunPath, m: &Model, force: bool) -> Site {
                     t.insert("typeMappings".into(), json!({"Timestamp": "string"}));
                 }
                 t.insert("force".into(), json!(force));
+                if m.has(E_VISUALIZE) {
+                    t.insert("visualizeDeps".into(), json!(true));
+                }
                 let conf = serde_json::to_string_pretty(&json!({"productName": "app", "plugins": {"typegen": Value::Object(t)}})).unwrap();
                 wr(&st.join("tauri.conf.json"), &conf);
                 config_files.push(("tauri.conf.json".to_string(), conf));
@@ -412,7 +443,7 @@ fn bytes_equal_modulo_timestamp(reference: &Files, actual: &Files) -> bool {
         }
         match actual.get(name) {
             None => false,
-            Some(a) => name.starts_with("dependency-graph.") || tool::strip_timestamp(a) == tool::strip_timestamp(text),
+            Some(a) => tool::strip_timestamp(a) == tool::strip_timestamp(text),
         }
     })
 }
@@ -421,9 +452,21 @@ fn compare(reference: &Files, actual: &Files) -> Vec<String> {
     if bytes_equal_modulo_timestamp(reference, actual) {
         return vec![];
     }
+    // the visualisation files are plain text: compared line by line
+    let mut graph_diffs = vec![];
+    for (name, text) in reference.iter().filter(|(n, _)| n.starts_with("dependency-graph.")) {
+        match actual.get(name) {
+            None => graph_diffs.push(format!("{}: missing", name)),
+            Some(a) if a != text => {
+                let (i, (want, got)) = text.lines().zip(a.lines().chain(std::iter::repeat(""))).enumerate().find(|(_, (x, y))| x != y).unwrap_or((0, ("", "")));
+                graph_diffs.push(format!("{}: line {} is `{}`, a fresh generation writes `{}`", name, i + 1, got, want));
+            }
+            _ => {}
+        }
+    }
     let by_declaration = sandbox::compare_generated(reference, actual);
-    if !by_declaration.is_empty() {
-        return by_declaration;
+    if !by_declaration.is_empty() || !graph_diffs.is_empty() {
+        return by_declaration.into_iter().chain(graph_diffs).collect();
     }
     // same declarations, different bytes: since the emission order is deterministic, a different
     // order is stale content too
@@ -484,8 +527,11 @@ fn run_history_in(root: &Path, h: &History, known: &dyn Fn(&Failure) -> bool, st
     let mut pending: Vec<usize> = vec![];
     let mut affecting_edit_followed_by_run = false;
     let mut prev_ref: Option<Arc<Reference>> = None;
+    // set by a `force_next` step: the run after the following edit is forced
+    let mut force_armed = false;
 
     for step in 0..=h.edits.len() {
+        let mut force_this_run = false;
         let mut last_edit: Option<usize> = None;
         let mut deleted_existing = false;
         if step > 0 {
@@ -509,16 +555,27 @@ fn run_history_in(root: &Path, h: &History, known: &dyn Fn(&Failure) -> bool, st
                         }
                     }
                 }
-                None => model.toggle(e),
+                None if EDITS[e].kind == EditKind::ForceNext => {
+                    force_armed = true;
+                    pending.pop();
+                }
+                None => {
+                    model.toggle(e);
+                    force_this_run = force_armed;
+                    force_armed = false;
+                }
             }
         }
-        let site = materialise(root, h.path, &model, false);
+        let site = materialise(root, h.path, &model, force_this_run);
         let before = sandbox::snapshot(&site.out_dir);
         let out = run_site(&site);
         let after = sandbox::snapshot(&site.out_dir);
         let wrote = !sandbox::diff(&before, &after).is_empty();
         stats.eval();
-        log.push(json!({"run": h.path.name(), "force": false, "command": command_line(&site), "exit": out.status, "wrote_files": wrote}));
+        if force_this_run {
+            stats.label("run:forced_inside_history");
+        }
+        log.push(json!({"run": h.path.name(), "force": force_this_run, "command": command_line(&site), "exit": out.status, "wrote_files": wrote}));
 
         let r = reference(h.path, &model, stats);
         if step > 0 {
@@ -690,7 +747,7 @@ pub fn run(ctx: &Ctx) {
     let max_len = ctx.tier.pick(2usize, 3usize);
     let random_cases = ctx.tier.pick(0u32, 2000u32);
     ctx.set_rule(&format!(
-        "base project (2 files, 3 commands, struct User + enum Kind + struct Progress, one event, one channel, one validator, one externally defined field type) and {} edit classes ({}), each an idempotent toggle; history = generate, then (edit, non-forced run)*; ALL edit sequences of length <= {} x 2 entry points (cli: real binary with flags or -c cfg.json; buildrs: BuildSystem::generate_at_build_time with tauri.conf.json or typegen.json) x 2 starting modes (none, zod){}; evaluation = one non-forced run compared with a forced run of the same binary on the current sources/configuration into an empty directory (declaration maps; forced outputs memoised per model state); non-trivial = the history contains an edit that changes the forced output (or removes an existing generated file) followed by a run, distinct by (path, start mode, edit sequence)",
+        "base project (2 files, 4 commands, struct User + enum Kind + struct Progress + payload-only structs Audit/AuditDetail, three events, one channel, one validator, one externally defined field type) and {} edit classes ({}), each an idempotent toggle; history = generate, then (edit, run)* where every run is non-forced except the one after an edit that follows `force_next`; quick tier additionally all [force_next, e, e] (edit + forced run, edit taken back + non-forced run); ALL edit sequences of length <= {} x 2 entry points (cli: real binary with flags or -c cfg.json; buildrs: BuildSystem::generate_at_build_time with tauri.conf.json or typegen.json) x 2 starting modes (none, zod){}; evaluation = one non-forced run compared with a forced run of the same binary on the current sources/configuration into an empty directory (declaration maps; forced outputs memoised per model state); non-trivial = the history contains an edit that changes the forced output (or removes an existing generated file) followed by a run, distinct by (path, start mode, edit sequence)",
         EDITS.len(),
         EDITS.iter().map(|e| e.name).collect::<Vec<_>>().join(", "),
         max_len,
@@ -703,6 +760,23 @@ pub fn run(ctx: &Ctx) {
     let keys = all_histories(max_len, &[false, true]);
     ctx.note("enumerated_histories", json!(keys.len()));
     ctx.enumerate("c08.enum", &keys, |h| h.to_json(), |h, stats| run_history(h, &|_| false, stats));
+    // a forced run inside the history, then the edit taken back: [force_next, e, e] for every
+    // toggle e (in the thorough tier these are part of the length-3 enumeration already)
+    if max_len < 3 {
+        let fnx = edit_index("force_next").unwrap();
+        let mut forced = vec![];
+        for (e, cls) in EDITS.iter().enumerate() {
+            if matches!(cls.kind, EditKind::Source | EditKind::Config) {
+                for path in [RunPath::Cli, RunPath::Buildrs] {
+                    for z in [false, true] {
+                        forced.push(History { path, start_zod: z, edits: vec![fnx, e, e] });
+                    }
+                }
+            }
+        }
+        ctx.note("forced_inside_histories", json!(forced.len()));
+        ctx.enumerate("c08.enum", &forced, |h| h.to_json(), |h, stats| run_history(h, &|_| false, stats));
+    }
     if random_cases > 0 {
         let known = |f: &Failure| ctx.known.iter().any(|k| k.matches(f));
         ctx.search("c08.random", random_cases, 12, |tape, stats| {
